@@ -22,6 +22,10 @@ CLAIMED = {
          "Structural necessary condition of the genesis round trip: every constant store prefix that consensus code writes is exported and re-imported by its module, every GenesisState field is assigned on export and consumed on import, every registered parameter key is exported. A missing table entry is state silently dropped by export/import. Validate(), JSON fidelity and continuation equivalence are not decided.",
          "Trusts dependencies; store keys are opened only through prefix.NewStore(ctx.KVStore(k.<key>), KeyPrefix(const)) (an unresolved prefix on a consensus path makes the check undecided, not passing).",
          "DESIGN.md §3 C18"),
+ "C10": ("E2/E7: path-sensitive guard dominance over normalised branch predicates (flags expanded to the comparisons that set them) + argument provenance of keyed accesses and bank counter-parties",
+         "Structural necessary conditions of actor authorization, for all paths of Complete, Cancel, Ready, Migrate, Store (payer selection) and the five node handlers: every state-changing effect is reachable only through the comparisons that tie the signer to the provider/creator/payer it claims to be; node handlers key every record and coin movement by the signer, and GetSigners returns the Creator address. A reported bypass is a concrete branch sequence. Honesty of TxAddresses lists is not decided.",
+         "Trusts dependencies; canonical access-path terms ignore aliasing through nested heap pointers; a boolean copied into a flag without ever being tested directly is not expanded (would be reported, not passed).",
+         "DESIGN.md §3 C10"),
 }
 
 NA_REASON = "check not implemented yet (framework under construction; see DESIGN.md section 3 for the planned structural clauses)"
